@@ -3,6 +3,7 @@ package relmod
 
 import (
 	"context"
+	"fmt"
 	"sort"
 	"strings"
 
@@ -13,12 +14,19 @@ import (
 type tuple map[string]interface{}
 
 // Normalize transforms a module into a relational model schema.
-func Normalize(ctx context.Context, m *sysl.Module) (*Schema, error) {
-	var err error
+func Normalize(ctx context.Context, m *sysl.Module) (schema *Schema, err error) {
 	ctx, err = withPayloadParser(ctx)
 	if err != nil {
 		return nil, err
 	}
+	// The attribute and payload converters panic on shapes they do not support
+	// (e.g. a patterns attribute that is not an array of strings): refuse such a
+	// model with an error.
+	defer func() {
+		if r := recover(); r != nil {
+			schema, err = nil, fmt.Errorf("cannot build the relational model: %v", r)
+		}
+	}()
 	s := &Schema{}
 	if err := normalizeModule(ctx, s, m); err != nil {
 		return nil, err
